@@ -74,6 +74,18 @@ pub fn run_case(c: &Case) -> CaseResult {
     } else {
         (Packet::parse(&c.data), ref_packet(&c.data))
     };
+    // "extended by the 12-bit VLAN id": the result is a function of the id alone, so the priority/DEI bits of the tag
+    // control must not change it (whichever form the dissector uses for VLAN 0)
+    if c.proto == "frame" && c.data.len() >= 16 && c.data[12] == 0x81 && c.data[13] == 0 && c.data[14] & 0xf0 != 0 {
+        let mut d2 = c.data.clone();
+        d2[14] &= 0x0f;
+        if let (Ok((s, d)), Ok((s2, d2))) = (&got, Frame::parse(&d2)) {
+            if addr_bytes(s) != addr_bytes(&s2) || addr_bytes(d) != addr_bytes(&d2) {
+                return Err(Fail::new("priority_bits_change_addresses", format!("tag control {:02x}{:02x}: got {:?}/{:?}, with cleared priority bits {:?}/{:?}", c.data[14], c.data[15], s, d, s2, d2))
+                    .with("vlan0", c.data[14] & 0x0f == 0 && c.data[15] == 0));
+            }
+        }
+    }
     match (got, want) {
         (Err(_), None) => Ok(0),
         (Ok((s, d)), Some(allowed)) => {
@@ -221,7 +233,7 @@ pub fn cases(ctx: &Ctx) -> Vec<(&'static str, Vec<Case>)> {
 
 pub fn run(ctx: &Ctx) {
     for (name, list) in cases(ctx) {
-        sweep_list(ctx, name, &list, SweepOpts { trivial_classes: vec![0], ..Default::default() }, run_case);
+        sweep_list(ctx, name, &list, SweepOpts { trivial_classes: vec![0], deadline_secs: Some(30), ..Default::default() }, run_case);
     }
     ctx.assume("inputs longer than 64 bytes behave like their 64-byte prefix (the dissectors read at most 40 bytes)");
 }
